@@ -34,9 +34,7 @@ pub fn all(quick: bool) -> Vec<Scenario> {
     v.extend(timelimit(quick));
     v.extend(wait(quick));
     v.extend(misc(quick));
-    if !quick {
-        v.extend(grid());
-    }
+    v.extend(grid(quick));
     v
 }
 
@@ -55,13 +53,7 @@ pub fn family(name: &str, quick: bool) -> Vec<Scenario> {
         "wait" => wait(quick),
         "misc" => misc(quick),
         "journal" => journal(quick),
-        "grid" => {
-            if quick {
-                vec![]
-            } else {
-                grid()
-            }
-        }
+        "grid" => grid(quick),
         _ => vec![],
     }
 }
@@ -128,7 +120,11 @@ pub fn dag(quick: bool) -> Vec<Scenario> {
     let fork: &[(u32, &[u32])] = &[(0, &[]), (1, &[0]), (2, &[0])];
     let two_roots: &[(u32, &[u32])] = &[(0, &[]), (1, &[]), (2, &[0]), (3, &[1])];
     let join: &[(u32, &[u32])] = &[(0, &[]), (1, &[]), (2, &[0, 1])];
+    // unusual but legal input: a task names the same dependency twice
+    let dup: &[(u32, &[u32])] = &[(0, &[]), (1, &[0, 0]), (2, &[1, 0, 1])];
     let mut v = vec![
+        Scenario::new("dag-dup-dep", vec![w(1)], vec![vec![sub(SubmitSpec::graph(dup, RqSpec::cpus(1)))]])
+            .budgets(0, 1, 0, 1),
         Scenario::new("dag-chain", vec![w(1)], vec![vec![sub(SubmitSpec::graph(chain, RqSpec::cpus(1)))]])
             .budgets(0, 1, 0, 1),
         Scenario::new("dag-fork-err", vec![w(2)], vec![vec![sub(SubmitSpec::graph(fork, RqSpec::cpus(1)))]])
@@ -660,6 +656,16 @@ pub fn wait(_quick: bool) -> Vec<Scenario> {
         Scenario::new("wait-nojournal", vec![w(1)], vec![vec![sub(arr(&[0], 1).wait())]]),
         // Appendix A #10: journal flush await between submit and listener registration
         Scenario::new("wait-journal", vec![w(1)], vec![vec![sub(arr(&[0], 1).wait())]]).journal(),
+        // three overlapping waiting clients: listeners register and unregister in every order
+        Scenario::new(
+            "wait-3clients",
+            vec![w(2)],
+            vec![
+                vec![sub(arr(&[0], 1).wait())],
+                vec![sub(arr(&[0], 1).wait())],
+                vec![sub(arr(&[0], 1).wait())],
+            ],
+        ),
     ]
 }
 
@@ -803,12 +809,15 @@ pub fn journal(quick: bool) -> Vec<Scenario> {
     v
 }
 
-/// Thorough tier only: the cross product of small cluster shapes, pre-sending modes, workloads and
+/// The cross product of small cluster shapes, pre-sending modes, workloads and
 /// a concurrent cancel, each with one loss, one failing task and one joining worker allowed (two
-/// deviations in total), explored to a stated depth. Its purpose is to reach combinations nobody
+/// deviations in total), explored to a stated depth (quick: 8 events, thorough: 13). Its purpose is to reach combinations nobody
 /// thought of when writing the named scenarios above.
-pub fn grid() -> Vec<Scenario> {
-    let depth = std::env::var("HQMC_GRID_DEPTH").ok().and_then(|s| s.parse().ok()).unwrap_or(11usize);
+pub fn grid(quick: bool) -> Vec<Scenario> {
+    let depth = std::env::var("HQMC_GRID_DEPTH")
+        .ok()
+        .and_then(|s| s.parse().ok())
+        .unwrap_or(if quick { 8usize } else { 13 });
     let workers: Vec<(&str, Vec<WorkerSpec>)> = vec![
         ("1w", vec![w(1)]),
         ("1w+s", vec![w(1), w(1).spare()]),
